@@ -43,6 +43,18 @@ CHECKS = {
              "edges over 2(+1 unseen) labels, values {-1,0,2}; Skipgram kernels flat/harmonic (kernel_args are unusable in "
              "the class). Named preconditions: a non-empty kept vocabulary / at least one n-gram.",
         tech="functional TLA+ specifications + TLC enumeration of (X, X', cfg) replayed into the code"),
+    "C07": dict(
+        cat="model_checking", ref="5 (C07), 4.11",
+        text="Transport.tla enumerates integer transportation problems (all mass vectors with a common total, all cost "
+             "matrices in 0..C, shapes 1x1..3x3 incl. 1xm / nx1, zero masses, ties) and finds the LP optimum by enumerating "
+             "integer plans; TLC also checks LP-duality lemmas (CertificateSound, CertificateExists, WeakDuality). Every "
+             "instance is solved by the real transport_plan with C- and F-ordered cost matrices and the plan is checked "
+             "for non-negativity, both marginals (1e-9) and optimal cost (1e-7). Beyond enumeration range (up to 800 "
+             "columns, n*m on both sides of 65536) recorded instances carry integer dual potentials whose feasibility "
+             "and value TLC decides (Trace_Transport.tla); weak duality makes that value a lower bound on every coupling.",
+        note="Integer masses / costs (or costs / 7); dual potentials for recorded instances come from an independent HiGHS "
+             "solve and are only trusted after TLC accepted them.",
+        tech="TLA+ specification of the transportation LP with TLC-enumerated optima + certificate validation of recorded runs"),
     "C19": dict(
         cat="model_checking", ref="5 (C19), 4.15",
         text="SlidingWindow.tla states the documented meaning (padding, number of windows, window i = elements "
